@@ -1354,6 +1354,15 @@ fn build_pages(case: &MapCase, rec: u16, avoid_rec: bool) -> Vec<u64> {
         }
         v.push(mk(p4n, p3, p2, p1)); // neighbouring P3 table
     }
+    // pages whose level-3 / level-2 index equals the recursive index (a corner of the recursive mapper)
+    if let Some((p4, p3, p2, p1)) = case.anchors.first() {
+        let mut a = *p4 % 512;
+        if a == rec {
+            a = (a + 3) % 512;
+        }
+        v.push(va_from_indices(a, rec, *p2 % 512, *p1 % 512, 0));
+        v.push(va_from_indices(a, *p3 % 512, rec, *p1 % 512, 0));
+    }
     // first/last page of each half
     v.push(0);
     v.push(0x0000_7fff_ffff_f000);
